@@ -211,3 +211,37 @@ func HarnessHealthRace() {
 	}
 	vCover(len(want) == 1, "one healthy reachable")
 }
+
+// HarnessClaimRace (T2): overlapping requests still rotate strictly: k concurrent claims on k healthy targets hit k
+// distinct targets, for every interleaving within the bound.
+func HarnessClaimRace() {
+	vT2(vParam("preemptions", 2), 2)
+	k := vParam("k", 2)
+	lb := &LoadBalancer{healthy: TargetList{}, all: TargetList{}}
+	for i := 0; i < k; i++ {
+		t := vBareTarget("t"+vItoa(i), TargetStateHealthy)
+		t.stateConsumer = lb
+		lb.all = append(lb.all, t)
+	}
+	lb.updateHealthyTargets()
+	lb.index = vIntRange("index", 0, 7)
+	got := make([]*Target, k)
+	done := 0
+	for i := 0; i < k; i++ {
+		i := i
+		go func() {
+			t, _, err := lb.claimTarget(vPlainRequest("/"))
+			vAssert(err == nil, "claimrace: a healthy target is claimed")
+			got[i] = t
+			done++
+		}()
+	}
+	vBlockUntil(func() bool { return done == k })
+	for a := 0; a < k; a++ {
+		for b := a + 1; b < k; b++ {
+			vAssert(got[a] != got[b], "claimrace: k overlapping requests go to k distinct targets")
+		}
+	}
+	vAssert(vRaceCount() == 0, "claimrace: no data race")
+	vCover(true, "claim race explored")
+}
